@@ -11,6 +11,11 @@ reader  arbitrary text (grammar of DIMACS-like documents + mutators, raw text) g
         oracle = reference interpretation with an explicit gray class.
 fuzz    the texts of tests/test_dimacsparser.py (both tiers) and, thorough tier only,
         coverage-guided atheris campaigns with the same oracle inside the fuzz target.
+writer  also holds the *history* cases (kind=history): one formula object encoded, changed,
+        encoded again ... against the harness's own model of the object (_run_history).
+writer_large  large instances: formulas around the usual buffer sizes through the writers, and
+        DIMACS texts of 1..4 MiB in every alignment with the powers of two through the readers
+        (run_reader_big).
 """
 import gc
 import hashlib
@@ -831,7 +836,7 @@ def enum_history(tier):
                 yield {'kind': 'history', 'start': starts[1], 'rseed': 1,
                        'steps': [['enc', via, False, False], m1, ['enc', via, True, True], m2, ['enc', via, False, False]]}
     for argv in HIST_CLI:
-        for mut in (muts[2], muts[7], muts[11]):
+        for mut in (muts[(7, 11, 2)[len(argv) % 3]],):
             yield {'kind': 'history', 'start': ['cli', argv], 'rseed': 1,
                    'steps': [['enc', 'cli-string', False, False], ['enc', 'to_dimacs', False, False], mut,
                              ['enc', 'to_dimacs', False, False], ['enc', 'cli-string', False, False]]}
@@ -957,9 +962,6 @@ def _read_with_tree(text, mode):
 
 
 def run_reader(case):
-    if 'big' in case:
-        return run_reader_big(case)
-    _BIG_MEMO.clear()
     text, mode = case['text'], case['mode']
     verdict = rd.classify(text)
     got, exc, mode = _read_with_tree(text, mode)
@@ -1294,7 +1296,6 @@ def _corpus():
 
 
 def enum_reader(tier):
-    yield from enum_reader_big(tier)
     for t in _corpus():
         for mode in READER_MODES:
             yield {'text': t, 'mode': mode, 'origin': ['corpus']}
@@ -1416,7 +1417,7 @@ SUBCHECKS = [
     SubCheck('writer', run_writer, strategy=strat_writer, enumerate_cases=enum_writer,
              quick=3000, thorough=75000,
              rule="hand-built CNFs (0..12 variables from singleton/block/anonymous groups with unusual labels, 0..30 clauses of width 0..4, empty clauses, unused variables), 8 library families and 14 cnfgen command lines (incl. `dimacs <file with unusual name>`), chains flip/shuffle/one arity-2 substitution, 0..3 header entries with unusual keys/values, export_header x export_varnames, via to_dimacs/to_file(StringIO)/to_file(None)/to_file(filename)/to_dimacs_file/cnfgen -q|-v [--varnames] [-o]; plus a complete grid of 6 corner formulas x 11 corner texts x 3 positions x flags x 6 paths. Oracle: independent strict reader accepts, one problem line with the true counts, same clauses in order, comment lines start with 'c ', the tree's reader returns the same formula. Non-trivial: >=1 clause and (header on or >=1 unused variable). "
-                  "HISTORY (1/3 of the generated cases, kind=history): ONE formula object (CNF(), CNF(description), CNF(clauses), CNF.from_file(...), one of 8 library families, cli(argv, mode='formula') for 11 command lines) is encoded, then changed 2..6 times by add_clause(check=True|False, literals over the current variables or up to 2 beyond, empty clause) / add_clauses_from / update_variable_number(n-2..n+40) / new_variable / new_block / new_combinations, _with_replacement, permutations, words, mapping, binary_mapping, graph_edges, bipartite_edges, digraph_edges / header[k]=v / add_parity / add_linear, with 0..2 encodings after every change and one at the end, each through to_dimacs() (40%), to_file(StringIO|None|the same file name again), to_dimacs_file, with any export flags, and for cli starts cli(argv, mode='string') asked again in between; plus enumerated: encode/change/encode for 3 starts x 26 changes x pairs of paths (all 36 in the thorough tier), encode/change/encode/change/encode for 26 x 26 ordered pairs of changes x 3 paths, 11 command lines x 3 changes. Oracle: the harness's own model of the object (n and clause list updated by the documented effect of each operation; group sizes from their combinatorial definition) - every encoding must pass the writer oracle above against the model as it is at that moment, so all paths agree with each other and read back equal; the object must hold the model. Non-trivial: >=2 encodings and >=1 change",
+                  "HISTORY (1/3 of the generated cases, kind=history): ONE formula object (CNF(), CNF(description), CNF(clauses), CNF.from_file(...), one of 8 library families, cli(argv, mode='formula') for 11 command lines) is encoded, then changed 2..6 times by add_clause(check=True|False, literals over the current variables or up to 2 beyond, empty clause) / add_clauses_from / update_variable_number(n-2..n+40) / new_variable / new_block / new_combinations, _with_replacement, permutations, words, mapping, binary_mapping, graph_edges, bipartite_edges, digraph_edges / header[k]=v / add_parity / add_linear, with 0..2 encodings after every change and one at the end, each through to_dimacs() (40%), to_file(StringIO|None|the same file name again), to_dimacs_file, with any export flags, and for cli starts cli(argv, mode='string') asked again in between; plus enumerated: encode/change/encode for 3 starts x 26 changes x pairs of paths (all 36 in the thorough tier), encode/change/encode/change/encode for 26 x 26 ordered pairs of changes x 3 paths, 11 command lines x 1 change (new variable / raise of the variable number / clause). Oracle: the harness's own model of the object (n and clause list updated by the documented effect of each operation; group sizes from their combinatorial definition) - every encoding must pass the writer oracle above against the model as it is at that moment, so all paths agree with each other and read back equal; the object must hold the model. Non-trivial: >=2 encodings and >=1 change",
              required_labels=['kind-hand', 'kind-family', 'kind-cli', 'empty-formula', 'empty-clause', 'unused-vars',
                               'header-on', 'header-off', 'varnames-on', 'varnames-off', 'via-to_dimacs', 'via-strio',
                               'via-file', 'via-stdout', 'via-cli-stdout', 'via-cli-file', 'text-lf', 'text-cr',
@@ -1450,6 +1451,8 @@ THRESHOLDS = [4095, 4096, 4097, 8191, 8192, 8193, 10000, 16385, 32769, 65537]
 
 
 def run_writer_large(case):
+    if 'big' in case:
+        return run_reader_big(case)
     from cnfgen import CNF
     from checks.c18 import dimacs_problem
     from checks.c17 import parse_dimacs
@@ -1503,9 +1506,16 @@ def enum_writer_large(tier):
         for n, width in ((50, 3), (5000, 2)):
             i += 1
             yield {'m': m, 'n': n, 'width': width, 'salt': i, 'header': bool(i % 2), 'varnames': i % 4 == 0}
+    yield from enum_reader_big(tier)
 
 
 SUBCHECKS.append(
     SubCheck('writer_large', run_writer_large, enumerate_cases=enum_writer_large,
-             rule="formulas with m in {4095,4096,4097,8191,8192,8193,10000(,16385,32769,65537)} pseudo-random clauses (every 7th short or empty) over 50 or 5000 variables, written by to_file(StringIO), to_file(filename), to_dimacs(); oracle: strict reader accepts, counts and every clause in order equal, CNF.from_file returns the same formula; non-trivial: all",
-             required_labels=['m>=4096']))
+             rule="WRITER: formulas with m in {4095,4096,4097,8191,8192,8193,10000(,16385,32769,65537)} pseudo-random clauses (every 7th short or empty) over 50 or 5000 variables, written by to_file(StringIO), to_file(filename), to_dimacs(); oracle: strict reader accepts, counts and every clause in order equal, CNF.from_file returns the same formula. "
+                  "READER: DIMACS texts of 2^20+4096, 2^21+4096 and 2^22+4096 characters (pseudo-random clauses of width 0..5 over variables of 1..5 digits; shapes: exactly the writer's layout / free layout with tabs, double blanks, CRLF, clauses spanning lines, several clauses per line, comment lines in between / lines of 100000 characters / one single line), declared variables = largest variable or 10^9+7, shifted by a comment line of 0..64 characters in front (0..2 or 5 of them two-byte characters) so that the 2^16-th, 2^20-th, 2^21-th and 2^22-th character falls on every position of a clause line; texts whose total length is 2^16, 2^20, 2^21 (+-2), with and without final newline; malformed variants (literal n+1 next to the 2^20-th character, clause count off by one, last clause open); read through CNF.from_file(name | handle | handle opened with newline='' and a 64 KiB buffer | StringIO | stdin), parse_dimacs, cnfgen dimacs <file>. Quick tier: 14 texts - each kind of cut (token|blank, blank|token, inside a token, after '-', before and after the line end) placed at the 2^20-th character by choosing the shift, one text per 2^16/2^21/2^22, one of length exactly 2^20, three malformed; thorough tier: all 65 shifts for five size/shape combinations and every second or third shift for the others (about 490 texts), 24 malformed texts with each kind of cut. Oracle: the clause list the text was rendered from (cross-checked with the independent strict reader vlib/rd_dimacs.py on texts below 1.5 MiB that are not in plain writer layout); valid => identical number of variables and clauses, malformed => ValueError/CLIError. Non-trivial: all",
+             required_labels=['m>=4096', 'big', 'big>=2^20', 'big>=2^21', 'big>=2^22', 'cut20-tok|blank', 'cut20-blank|tok',
+                              'cut20-tok|tok', 'cut20-nl|', 'cut20-|nl', 'cut20-minus|digit', 'cut16-tok|blank',
+                              'cut21-blank|tok', 'cut22-tok|blank', 'big-length-power-of-two', 'big-ref-checked',
+                              'big-shape-writer', 'big-shape-free', 'big-shape-long', 'big-shape-oneline',
+                              'big-n-tight', 'big-n-huge', 'rejected-big-range', 'rejected-big-count-1',
+                              'rejected-big-open'] + ['big-mode-' + m for m in BIG_MODES]))
